@@ -165,6 +165,28 @@ func specialReplay(in io.Reader, raw bool, args []string) (*Summary, error) {
 						}
 					}
 				}
+				// the neighbourhood of x = (a+1)/(a+b+2), where implementations of the continued fraction switch to the
+				// reflected form 1 - I_{1-x}(b, a): both sides of the switch, float by float
+				t := (a + 1) / (a + b + 2)
+				for _, t0 := range []float64{t, 1 - (b+1)/(a+b+2)} {
+					up, dn := t0, t0
+					for k := 0; k < 4; k++ {
+						for _, xx := range []float64{up, dn} {
+							if xx <= 0 || xx >= 1 {
+								continue
+							}
+							sum.Checks++
+							got, want := mathx.BetaInc(xx, a, b), mathext.RegIncBeta(a, b, xx)
+							if !closeF(got, want, 1e-9, 0) {
+								sum.viol("BetaInc-accuracy", c, "BetaInc(%v,%v,%v)=%.15g, independent value %.15g (next to the symmetry switch)", xx, a, b, got, want)
+							}
+							if s := got + mathx.BetaInc(1-xx, b, a); math.Abs(s-1) > 1e-9 {
+								sum.viol("BetaInc-symmetry", c, "BetaInc(%v,%v,%v)+BetaInc(1-x,b,a)=%.15g", xx, a, b, s)
+							}
+						}
+						up, dn = math.Nextafter(up, 2), math.Nextafter(dn, -1)
+					}
+				}
 				for _, bad := range []float64{-1e-9, 1 + 1e-9, -3, 7, math.Inf(1), math.NaN()} {
 					if v := mathx.BetaInc(bad, a, b); !math.IsNaN(v) {
 						sum.viol("BetaInc-domain", c, "BetaInc(%v,%v,%v)=%v want NaN", bad, a, b, v)
